@@ -241,3 +241,27 @@ Theorem C08_cancel_frame_needed :
     accepted (Compose_chain.send_events (Compose_chain.crun_gen false cl init [] ops)) = [5; 5].
 Proof. exact Compose_chain.frame_needed. Qed.
 Print Assumptions C08_cancel_frame_needed.
+
+(* ---- the nonce on the wire (model/EvmTx.v: the same Send with the transaction payload kept) -----------------
+   Erasing the payload of EvmTx.send_tx gives exactly EvmSend.send, for every request, counter, confirmed nonce and
+   node answers: every theorem of this file about accepted / rejected nonces is a theorem about the nonce field of
+   the transactions on the wire.  Non-vacuity: EvmTx_proofs.ex_store_accepted. *)
+From MevVerif Require model.EvmTx proofs.EvmTx_proofs.
+Theorem C08_wire_nonce_is_machine_nonce : forall chain owner ctr conf rq a,
+  let '(c, r, _) := EvmTx.send_tx chain owner ctr conf rq a in
+  (c, EvmTx.erase r) = EvmSend.send ctr conf (EvmTx.req_of rq) (EvmTx.ans_of a).
+Proof. exact EvmTx_proofs.send_tx_refines_send. Qed.
+Print Assumptions C08_wire_nonce_is_machine_nonce.
+
+(* ... over whole histories on one client *)
+Theorem C08_wire_history_refines : forall chain owner l ctr,
+  map (fun x => EvmTx.erase (fst x)) (EvmTx.run_tx chain owner ctr l) =
+  EvmTx_proofs.run_send ctr (EvmTx_proofs.erase_ops l).
+Proof. exact EvmTx_proofs.run_tx_refines. Qed.
+Print Assumptions C08_wire_history_refines.
+
+(* a request that fails before SendTransaction hands no transaction to the node *)
+Theorem C08_failed_request_submits_nothing : forall chain owner ctr conf rq a c calls,
+  EvmTx.send_tx chain owner ctr conf rq a = (c, EvmTx.TNoTx, calls) -> forall t, ~ In (EvmTx.CSubmit t) calls.
+Proof. exact EvmTx_proofs.send_tx_no_tx_no_submit. Qed.
+Print Assumptions C08_failed_request_submits_nothing.
